@@ -292,7 +292,7 @@ def run_wait(case, st):
         s.run()
         on_exec(s, result())
         return
-    stats = vsched.explore_schedules(harness, P, on_exec=on_exec)
+    stats = vsched.explore_with_crosscheck(st, harness, P, on_exec, case)
     st.states += stats["executions"]
     st.count("schedules", stats["executions"])
     st.count("schedules_with_preemption", stats["with_preemption"])
